@@ -245,6 +245,25 @@ int main(int argc, char **argv)
       hwloc_bitmap_free(b);
     }
   }
+  /* (A2) bitmaps built from 32-bit groups (the unit of the hwloc format, half a word of the representation):
+   * every assignment of the first 6 groups over a small value set x {finite, infinite from 192, infinite from 224} */
+  {
+    static const unsigned long GV[] = { 0x0UL, 0xffffffffUL, 0x1UL, 0x80000000UL, 0x0000ffffUL, 0xffff0000UL };
+    int nv = MC.thorough ? 6 : 4; uint64_t total = 1; for (int i = 0; i < 6; i++) total *= (uint64_t)nv;
+    static const long GT[] = { -1, 192, 224 };
+    for (uint64_t k = 0; k < total; k++) {
+      if (!mc_mine(k)) continue;
+      if (mc_deadline()) break;
+      for (unsigned t = 0; t < 3; t++) {
+        hwloc_bitmap_t b = hwloc_bitmap_alloc(); uint64_t q = k;
+        for (int g = 0; g < 6; g++) { unsigned long v = GV[q % (uint64_t)nv]; q /= (uint64_t)nv; for (int bit = 0; bit < 32; bit++) if (v & (1UL << bit)) hwloc_bitmap_set(b, (unsigned)(g * 32 + bit)); }
+        if (GT[t] >= 0) hwloc_bitmap_set_range(b, (unsigned)GT[t], -1);
+        refset m; model_of(b, &m);
+        if (mc_case("print bitmap %s (groups)", rs_str(&m))) { print_battery(b, &m); MC.states++; nb++; }
+        hwloc_bitmap_free(b);
+      }
+    }
+  }
   mc_count("bitmaps_printed", nb);
   /* (B1) every string of length <= L over the alphabet */
   static const char ALPHA[] = { '0', '1', '8', 'f', 'x', ',', '-', '.', ' ', (char)0x80 };
